@@ -1166,6 +1166,72 @@ def _transaction_round_body(checker, rng, network, all_bits=False):
 			ctx.count('cosign:' + ('detached' if detached else 'attached'))
 
 
+def attach_check(checker, network, seed, buffer, signature):
+	"""`transaction_factory.attach_signature(transaction, signature)`: the JSON it returns carries the exact 128-digit upper-case hex
+	of the signature (NEM) and the hex of the serialization (Symbol: with the signature inside; NEM: the non-verifiable bytes)."""
+	ctx = checker.ctx
+	impl = checker.impl
+	facade = impl.facade(network, seed)
+	transaction = facade.transaction_factory.deserialize(buffer)
+	sample = {'op': 'attach', 'args': {'network': network, 'seed': seed, 'transaction': buffer, 'signature': signature}}
+	try:
+		document = json.loads(facade.transaction_factory.attach_signature(transaction, impl.types[3](signature)))
+	except Exception as ex:  # pylint: disable=broad-except
+		ctx.fail('property', f'{network} attach_signature does not return a JSON document: {type(ex).__name__}: {ex}', sample)
+		return
+	current = transaction.serialize()
+	ctx.case(('attach', network, buffer, signature), None)
+	ctx.count(f'attach:{network}:first-signature-byte-' + ('below-0x10' if signature[0] < 0x10 else 'other'))
+	if bytes(transaction.signature.bytes) != signature:
+		ctx.fail('property', f'{network} attach_signature does not store the signature in the transaction', sample)
+	if 'nem' == network:
+		text = document.get('signature')
+		if text != signature.hex().upper():
+			ctx.fail('property', (
+				f'nem attach_signature announces signature {text!r} ({len(text or "")} digits), not the 128-digit hex {signature.hex().upper()}'),
+				dict(sample, implementation=str(text), required=signature.hex().upper()))
+		if document.get('data') != checker.layout.nem_payload(current).hex().upper():
+			ctx.fail('property', 'nem attach_signature: data is not the hex of the non-verifiable serialization', sample)
+	else:
+		if document.get('payload') != current.hex().upper():
+			ctx.fail('property', 'symbol attach_signature: payload is not the hex of the serialization', sample)
+		if current[checker.layout.signature[0]:checker.layout.signature[0] + 64] != signature:
+			ctx.fail('property', 'symbol attach_signature: the announced payload does not carry the signature', sample)
+
+
+def _attach_round(checker, rng, network):
+	"""Signatures whose first byte is below 0x10 (leading zero hex digits) must occur: the deadline is varied until one does."""
+	impl = checker.impl
+	secret = gen_secret(rng)
+	key_pair = impl.key_pair(network, secret)
+	seed = None if 'nem' == network else rng.choice(list(SYMBOL_SEEDS.values()))
+	facade = impl.facade(network, seed)
+	transaction = (gen_nem_transaction if 'nem' == network else gen_symbol_transaction)(rng, facade, key_pair, False)[0]
+	if facade.transaction_factory.deserialize(transaction.serialize()).serialize() != transaction.serialize():
+		return
+	low = None
+	for attempt in range(96):
+		Checker.apply_edit(transaction, 'deadline', (rng.randrange(1 << 30) + attempt) % (1 << 31))
+		buffer = transaction.serialize()
+		payload = checker.layout.nem_payload(buffer) if 'nem' == network else checker.layout.symbol_payload(seed, buffer)
+		signature = facade.sign_transaction(key_pair, transaction).bytes
+		if signature != ref_sign(network, secret, payload):
+			break  # reported by the other rounds
+		if 0 == attempt:
+			attach_check(checker, network, seed, buffer, signature)
+		if signature[0] < 0x10:
+			low = (buffer, signature, payload)
+			break
+	if low is not None:
+		attach_check(checker, network, seed, low[0], low[1])
+		checker.verify(network, key_pair.public_key.bytes, low[2], low[1], 'accept', 'a signature with a leading zero digit does not verify')
+	else:
+		checker.ctx.count(f'attach:{network}:no-leading-zero-signature-found')
+	# crafted signature bytes with leading zero digits (attach_signature does not verify what it attaches)
+	for first in (0x00, 0x0F, 0x10, 0xFF):
+		attach_check(checker, network, seed, transaction.serialize(), bytes([first]) + (bytes(63) if 0 == first else rng.bytes_(63)))
+
+
 def _network_round(checker, rng):
 	"""Facades built from Network OBJECTS that collide with a shipped network in name and/or identifier but carry their own
 	generation hash seed (and the control cases): everything the facade signs, verifies, hashes and cosigns is over the seed that
@@ -1464,6 +1530,10 @@ def run(ctx):
 			_history_round(checker, rng, network)
 	for _ in range(ctx.scale(1, 8)):
 		_network_round(checker, rng)
+	for network in ('symbol', 'nem'):
+		for _ in range(ctx.scale(3, 40)):
+			_attach_round(checker, rng, network)
+		checker.settle()
 	for _ in range(ctx.scale(8, 150)):
 		_voting_round(checker, rng)
 	checker.settle()
@@ -1536,6 +1606,8 @@ def _replay_dispatch(ctx, checker, payload, case, name, args):
 		factory = impl.facade(network, seed).transaction_factory
 		steps = [(kind, buffer, factory.deserialize(buffer)) for kind, buffer in zip(args['kinds'].split(','), args['transactions'])]
 		checker.transaction_history(network, seed, args['secret'], steps)
+	elif 'attach' == name:
+		attach_check(checker, args['network'], args.get('seed'), args['transaction'], args['signature'])
 	elif 'cosign_set' == name:
 		checker.cosign_set(args.get('seed'), args['transaction'], args['secrets'], args['hashes'])
 	elif 'mutate' == name:
